@@ -80,9 +80,25 @@ class OptimizerBase(abc.ABC):
             self.grid.update(junction.index, clamp.position)
             return junction.quality
 
-        sensitivities = np.asarray(
-            scipy.optimize.approx_fprime(clamp.params, lambda p: fquality(clamp, junction, p), epsilon=10 * TOL)
-        )
+        # forward differences, but backward at the upper end of clamp's range
+        # (a curve can't be evaluated outside of its bounds)
+        steps = np.full(len(clamp.params), 10 * TOL)
+        if clamp.bounds is not None:
+            for i, bounds in enumerate(clamp.bounds):
+                if clamp.params[i] + steps[i] > bounds[1]:
+                    steps[i] = -steps[i]
+
+        try:
+            base_quality = fquality(clamp, junction, initial_params)
+            sensitivities = np.zeros(len(steps))
+
+            for i, step in enumerate(steps):
+                params = np.array(initial_params, dtype=float)
+                params[i] += step
+                sensitivities[i] = (fquality(clamp, junction, params) - base_quality) / step
+        except ValueError:
+            # a degenerate cell next to this junction; leave the clamp for later
+            sensitivities = np.zeros(len(steps))
 
         clamp.update_params(initial_params)
         self.grid.update(junction.index, clamp.position)
